@@ -41,7 +41,7 @@ P = {
   tech=TECH + " (tie H on ring structure for all four flag sets, real and synthetic grids)", ref="DESIGN.md 6 C05"),
  "C06": dict(
   text="Partial, with a machine-checked refutation. Theorems for all inputs: kmpTable/kmpSearch/kmpSearchAll never index out of range and terminate (independent of the non-standard shift), splitRing is total, kmpDeduplicate never exhausts its fuel (no hang at model level) and can fail only through ring[-1] (exactly when matches=1 and reverse matches=0, not known reachable) or RemoveSequences' slice bounds; total on chains without step back and on the C18 class; bounded totality by enumeration inside Coq. END TO END (C06_snapPolygon_errors_only_from_spike_removal, C06_snapPolygon_total_on_class, also for the model with the Morton-key limit up to deepest level 32): every other stage — routing and cleanupNewVertices (C02: no empty centre list), splitRing, dedupeInnersOuters, matchInnersToPolygons, the level assembly, rings of < 3 vertices, empty rings, dying levels — is total on every in-grid polygon, valid or not, so if snapPolygon fails then kmpDeduplicate failed with that very error (ring[-1] or slice bounds, never a hang) on a routed-and-cleaned ring of >= 3 vertices, and on the class of C18 (no centre at three positions) snapPolygon never fails. C06_kmp_total_refuted: a 33-vertex ring over 3 centres makes it fail with SliceBounds, also at polygon level in the model — replayed: the real SnapPolygon panics (known finding F13). Runtime behaviour (time, memory, aliasing) is measured by the harness only.",
-  note="Trusted: as C01, except that kmpTable/kmpSearch/kmpSearchAll are no longer a hand transcription: regenerated from snap.go on every run (gen/KmpGen.v, loops as fuelled Fixpoints over the assigned variables, index/slice panics as Err values) and proved equal to the model on all inputs and outcomes (C06_source_tie_kmp_search; int as exact Z, [2]float64 as points); likewise cleanupNewVertices (incl. its panic), asPointOrLine, ensureCorrectWindingOrder (gen/SnapSmallGen.v, C06_source_tie_small; windingOrderIsCorrect and mapslicehelp.ReverseClone stay modelled); and kmpDeduplicate itself with mapslicehelp.RemoveSequences (gen/KmpDedupGen.v, C06_source_tie_kmp_deduplicate: equal to the model for every ring and outcome; kept as the model's functions after an AST check: the go-sortedmap calls (New with the a[xAx] < b[xAx] ordering, Insert keyed by fmt.Sprint(segment), Keys/Map), slices.Contains, copy + slices.Reverse on a made local, append onto the ring window as list append); cleanupNewRing (gen/CleanupRingGen.v, C06_source_tie_cleanup_new_ring: calls the regenerated kmpDeduplicate/asPointOrLine; splitRing stays the hand-written model, NOT tied to the source); time/memory/stack are runtime behaviour the model cannot exhibit. Known findings F11 (level > 32) and F13 attributed by mechanism.",
+  note="Trusted: as C01, except that kmpTable/kmpSearch/kmpSearchAll are no longer a hand transcription: regenerated from snap.go on every run (gen/KmpGen.v, loops as fuelled Fixpoints over the assigned variables, index/slice panics as Err values) and proved equal to the model on all inputs and outcomes (C06_source_tie_kmp_search; int as exact Z, [2]float64 as points); likewise cleanupNewVertices (incl. its panic), asPointOrLine, ensureCorrectWindingOrder (gen/SnapSmallGen.v, C06_source_tie_small; windingOrderIsCorrect and mapslicehelp.ReverseClone stay modelled); and kmpDeduplicate itself with mapslicehelp.RemoveSequences (gen/KmpDedupGen.v, C06_source_tie_kmp_deduplicate: equal to the model for every ring and outcome; kept as the model's functions after an AST check: the go-sortedmap calls (New with the a[xAx] < b[xAx] ordering, Insert keyed by fmt.Sprint(segment), Keys/Map), slices.Contains, copy + slices.Reverse on a made local, append onto the ring window as list append); cleanupNewRing (gen/CleanupRingGen.v, C06_source_tie_cleanup_new_ring: calls the regenerated kmpDeduplicate/asPointOrLine; of splitRing only the last part (classification by size/winding order and the swap) is regenerated, gen/SplitTailGen.v, C06_source_tie_split_ring_partial; its ordered-map stack walk stays hand-modelled, NOT tied to the source); time/memory/stack are runtime behaviour the model cannot exhibit. Known findings F11 (level > 32) and F13 attributed by mechanism.",
   tech=TECH + " (tie H incl. exhaustive chains through code and model); harness watchdog for runtime behaviour", ref="DESIGN.md 6 C06"),
  "C07": dict(
   text="Full at model level: the model is a function; results do not depend on the order or multiplicity in which levels are processed; reversing any subset of rings of non-zero area leaves the result unchanged (xprod (rev r) = - xprod r; the hot set enters only through membership); the reverse flag reverses exactly the rings of the polygon part and nothing else. Harness: repeated runs, permuted/duplicated id lists, reversed rings, toggled flag, bit-for-bit on the implementation, incl. tile matrix sets in tiny units.",
